@@ -71,7 +71,25 @@ func (e *SignEnv) classify(bo *ssa.BinOp) (string, bool, bool) {
 	if e.Classify != nil {
 		return e.Classify(bo)
 	}
-	rx, ry := e.roleOf(bo.X), e.roleOf(bo.Y)
+	// three-way comparison calls: bytes.Compare(a, b) <op> 0 is the comparison a <op> b
+	if a, b, ok := compareCall(bo.X); ok {
+		if k, isC := ConstInt(bo.Y); isC && k == 0 {
+			return e.pairAtom(e.roleOf(a), e.roleOf(b), false)
+		}
+	}
+	if a, b, ok := compareCall(bo.Y); ok {
+		if k, isC := ConstInt(bo.X); isC && k == 0 {
+			return e.pairAtom(e.roleOf(a), e.roleOf(b), true)
+		}
+	}
+	return e.pairAtom(e.roleOf(bo.X), e.roleOf(bo.Y), false)
+}
+
+// pairAtom names the atom for the ordered pair (rx, ry); swap exchanges the operands first.
+func (e *SignEnv) pairAtom(rx, ry string, swap bool) (string, bool, bool) {
+	if swap {
+		rx, ry = ry, rx
+	}
 	if rx == "" || ry == "" || rx == ry {
 		return "", false, false
 	}
@@ -79,6 +97,39 @@ func (e *SignEnv) classify(bo *ssa.BinOp) (string, bool, bool) {
 		return rx + ":" + ry, false, true
 	}
 	return ry + ":" + rx, true, true
+}
+
+// compareCall: v is bytes.Compare / strings.Compare / cmp.Compare (a, b).
+func compareCall(v ssa.Value) (a, b ssa.Value, ok bool) {
+	call, isCall := Unwrap(v).(*ssa.Call)
+	if !isCall || len(call.Call.Args) != 2 {
+		return nil, nil, false
+	}
+	f := StaticFn(call.Common())
+	if f == nil || f.Pkg == nil {
+		return nil, nil, false
+	}
+	switch f.Pkg.Pkg.Path() + "." + f.Name() {
+	case "bytes.Compare", "strings.Compare", "cmp.Compare":
+		return call.Call.Args[0], call.Call.Args[1], true
+	}
+	return nil, nil, false
+}
+
+// equalCall: v is bytes.Equal / slices.Equal / strings.EqualFold-free equality of (a, b).
+func equalCall(v ssa.Value) (a, b ssa.Value, ok bool) {
+	call, isCall := v.(*ssa.Call)
+	if !isCall || len(call.Call.Args) != 2 {
+		return nil, nil, false
+	}
+	f := StaticFn(call.Common())
+	if f == nil || f.Pkg == nil {
+		return nil, nil, false
+	}
+	if f.Pkg.Pkg.Path()+"."+f.Name() == "bytes.Equal" {
+		return call.Call.Args[0], call.Call.Args[1], true
+	}
+	return nil, nil, false
 }
 
 func cmpHolds(op token.Token, s int) (bool, bool) {
@@ -150,6 +201,17 @@ func (e *SignEnv) Eval(v ssa.Value, blk *ssa.BasicBlock, hist Hist, depth int) T
 			}
 		}
 	case *ssa.Call:
+		if a, b, ok := equalCall(x); ok && e.Classify == nil {
+			if atom, _, ok := e.pairAtom(e.roleOf(a), e.roleOf(b), false); ok {
+				if s, known := e.Signs[atom]; known {
+					if s == 0 {
+						return True
+					}
+					return False
+				}
+			}
+			return Unknown
+		}
 		if depth <= 0 {
 			return Unknown
 		}
@@ -294,4 +356,29 @@ func (e *SignEnv) ReturnValue(f *ssa.Function, idx int) Tri {
 		return False
 	}
 	return Unknown
+}
+
+// SetSign records sign(a−b)=s under the atom naming used by role-based classification.
+func SetSign(signs map[string]int, a, b string, s int) {
+	if a < b {
+		signs[a+":"+b] = s
+	} else {
+		signs[b+":"+a] = -s
+	}
+}
+
+// ReachableReturns lists the returns of f reachable under the environment.
+func (e *SignEnv) ReachableReturns(f *ssa.Function) []*ssa.Return {
+	var out []*ssa.Return
+	seen := map[*ssa.Return]bool{}
+	e.explore(f, e.Depth, func(b *ssa.BasicBlock, _ Hist) {
+		if len(b.Instrs) == 0 || (f.Recover != nil && b == f.Recover) {
+			return
+		}
+		if r, ok := b.Instrs[len(b.Instrs)-1].(*ssa.Return); ok && !seen[r] {
+			seen[r] = true
+			out = append(out, r)
+		}
+	})
+	return out
 }
